@@ -232,7 +232,7 @@ func resolveCatalogRefs(c *catalog.Catalog, rvs []*ast.RangeVar, args []paramRef
 					continue
 				}
 
-				if fun.Args == nil {
+				if len(fun.Args) == 0 {
 					defaultName := funcName
 					if argName != "" {
 						defaultName = argName
@@ -250,8 +250,14 @@ func resolveCatalogRefs(c *catalog.Catalog, rvs []*ast.RangeVar, args []paramRef
 				var paramName string
 				var paramType *ast.TypeName
 				if argName == "" {
-					paramName = fun.Args[i].Name
-					paramType = fun.Args[i].Type
+					// the arguments of a variadic call beyond the declared list
+					// belong to the last (variadic) declared argument
+					decl := i
+					if decl >= len(fun.Args) {
+						decl = len(fun.Args) - 1
+					}
+					paramName = fun.Args[decl].Name
+					paramType = fun.Args[decl].Type
 				} else {
 					paramName = argName
 					for _, arg := range fun.Args {
